@@ -460,6 +460,14 @@ func (c *Ctx) e1(p *govc.Program, id string) *govc.Report {
 	if c.Opt.TimeoutS > 0 {
 		opts.TimeoutS = c.Opt.TimeoutS
 	}
+	if ff, err := loadFindings(c.Opt.VerifDir); err == nil {
+		opts.NoRetry = map[string]bool{}
+		for _, f := range ff.Findings {
+			if f.Property == id {
+				opts.NoRetry[f.Obligation] = true
+			}
+		}
+	}
 	r := govc.Check(p, opts)
 	c.e1cache[id] = r
 	return r
